@@ -173,7 +173,7 @@ def corpus_workspaces(tier):
     files = sorted(os.path.join(CORPUS, n) for n, _t in gen.corpus_files())
     for p in files:
         out.append({"kind": "analysis", "files_dir": CORPUS, "root": p, "include_dir": CORPUS, "offsets": "sample",
-                    "max_offsets": 30 if tier == "quick" else 400, "tag": "corpus"})
+                    "max_offsets": 30 if tier == "quick" else 150, "tag": "corpus"})
     return out
 
 
